@@ -25,7 +25,10 @@ import (
 	"verif/harness/internal/prng"
 )
 
-const sysFee = 10_0000_0000
+const (
+	sysFee       = 10_0000_0000
+	sysFeeDeploy = 60_0000_0000 // every deployment costs at least 10 GAS
+)
 
 // ---------- store <-> observation ----------
 
@@ -36,7 +39,7 @@ func (v *env) triples(s *snapshot) []triple {
 	for _, e := range s.store {
 		res = append(res, triple{e.c, e.k, e.v})
 	}
-	for _, a := range []int{0, 1, 2, 3, extAcc, senderAcc} {
+	for _, a := range []int{0, 1, 2, 3, 6, 7, 8, senderAcc} {
 		if g := s.gas[a]; g != nil && g.Sign() != 0 {
 			res = append(res, triple{gasTab, a, int(g.Int64())})
 		}
@@ -45,6 +48,15 @@ func (v *env) triples(s *snapshot) []triple {
 		}
 	}
 	res = append(res, triple{policyTab, 0, int(s.feePB)})
+	for d, id := range s.aux {
+		res = append(res, triple{mgmtTab, d, id})
+	}
+	res = append(res, triple{mgmtTab, 99, s.nextID})
+	for a, b := range s.blocked {
+		if b {
+			res = append(res, triple{blockTab, a, 1})
+		}
+	}
 	sortTriples(res)
 	return res
 }
@@ -114,8 +126,16 @@ func burn(l *wnode, fee int) *wnode {
 // ---------- one case ----------
 
 type txPlan struct {
-	tree   []*Node
-	hasFee bool
+	tree      []*Node
+	committee bool // a Policy setter occurs: the committee signs too
+	deploys   bool
+}
+
+func (p txPlan) fee() int64 {
+	if p.deploys {
+		return sysFeeDeploy
+	}
+	return sysFee
 }
 
 func simpleTx(r *prng.R) txPlan {
@@ -147,6 +167,20 @@ func (v *env) setup(r *prng.R) {
 			txs = append(txs, v.e.SignTx(v.tb, tx, sysFee, v.comm))
 		}
 	}
+	// sometimes the chain starts with blocked accounts and a deployed auxiliary contract
+	var pre []*Node
+	for _, a := range plainAccounts {
+		if r.Chance(1, 3) {
+			pre = append(pre, blockAcc(a, 15))
+		}
+	}
+	if r.Chance(1, 5) {
+		pre = append(pre, deploy(r.Intn(numAux), 15))
+	}
+	if len(pre) > 0 {
+		p := planOf([]*Node{call(0, 15, pre...)})
+		txs = append(txs, v.newTx(v.w.compileEntry(p.tree), p.fee(), p.committee))
+	}
 	if len(txs) == 0 {
 		return
 	}
@@ -175,8 +209,7 @@ func runCase(o *hx.Out, k int, r *prng.R, corp []txPlan, natives bool) {
 				plans = append(plans, simpleTx(r))
 				o.Count("tx:simple-neighbour")
 			} else {
-				t, fee := genTree(r, o, natives)
-				plans = append(plans, txPlan{t, fee})
+				plans = append(plans, genTree(r, o, natives))
 			}
 		}
 		v.runBlock(o, k, plans)
@@ -189,7 +222,7 @@ func (v *env) runBlock(o *hx.Out, k int, plans []txPlan) {
 	var txs []*transaction.Transaction
 	var fees []string
 	for _, p := range plans {
-		tx := v.newTx(v.w.compileEntry(p.tree), sysFee, p.hasFee)
+		tx := v.newTx(v.w.compileEntry(p.tree), p.fee(), p.committee)
 		txs = append(txs, tx)
 		fees = append(fees, fmt.Sprint(tx.SystemFee+tx.NetworkFee))
 	}
@@ -275,7 +308,8 @@ func (v *env) runBlock(o *hx.Out, k int, plans []txPlan) {
 		}
 	}
 	if len(after.odd) > 0 {
-		o.Fail("odd-storage", k, "%v", after.odd)
+		o.Fail("cache-storage-divergence", k, "%v; txs %s", after.odd, plansText(plans))
+		post = append(post, triple{999, 0, len(after.odd)})
 	}
 	o.Line("end", "st "+triplesText(post))
 	spost := triplesOf(specSt)
@@ -319,7 +353,7 @@ func bucket(n int) string {
 func faultClass(s string) string {
 	for _, c := range []string{"ABORT", "unhandled exception", "missing call flags", "not allowed in dynamic scripts",
 		"can not be retrieved in dynamic scripts", "context unload callback failed", "instruction offset is out of range",
-		"invalid offset for TRY", "invalid committee signature", "gas limit"} {
+		"invalid offset for TRY", "invalid committee signature", "gas limit", "contract already exists"} {
 		if strings.Contains(s, c) {
 			return strings.ReplaceAll(c, " ", "-")
 		}
